@@ -22,6 +22,7 @@ META = {
     "not_decided": "applicability of every delivered diff to the replica beyond the table rules of C05",
 }
 META["explanation"] += ' R06.6 lag => reset: the result of every receive is examined for `Lagged`, and every path from a Lagged edge passes the lag handler before the stream returns or receives again (a swallowed Lagged loses messages without a Reset).'
+META["explanation"] += ' R05.4 (snapshot and receiver taken in one `&self` call) and R08.2 (one Sender, never cloned into something that outlives the vector) are part of the shared im_core group.'
 
 SHRINKING = r"bin:(Div|Sub|Shr|Rem)|::(min|saturating_sub|checked_sub|wrapping_sub|div_ceil|checked_div|isqrt|ilog2|ilog10)$"
 
